@@ -156,8 +156,19 @@ def exclusive_access(ck, P):
         ck.decide(not bad, R, ty.replace(Z, "") + ":no-clone", "not Clone", "%s is Clone/Copy" % ty)
 
 
+def stale_state(ck, P):
+    """'prior contents of internal memory reused after a reset': the field-coverage rule of C14 is the static
+    form of this clause — a state field that survives reset makes the next stream depend on the previous one"""
+    from . import c14
+    W = writes("K1")
+    c14.reset_cover(ck, P, W, Z + "deflate::reset", Z + "deflate::State", c14.DEFLATE_CONFIG, c14.DEFLATE_DEAD, {}, "deflate::reset", floor_written=28)
+    c14.reset_cover(ck, P, W, Z + "inflate::reset_with_config", Z + "inflate::State", c14.INFLATE_CONFIG, c14.INFLATE_DEAD, c14.INFLATE_PERCALL,
+                    "inflate::reset_with_config", floor_written=18)
+
+
 def run(ck):
     exclusive_access(ck, prog("K1"))
+    stale_state(ck, prog("K1"))
     for cfg, floor in (("K1", 9), ("K3", 12), ("K3b", 14)):
         P = prog(cfg)
         ck.configs.add(cfg)
